@@ -76,7 +76,7 @@ def r1_who(report, repo, rule='C01-R1'):
       report.check(owner == 'TestState.finalize_normally', rule, owner, c, c,
                    'Outcome.PASS passed to _finalize only in finalize_normally',
                    'Outcome.PASS produced outside finalize_normally (%s)' % owner)
-  report.expect_instances(rule, n, 8, '_finalize call sites')
+  report.expect_instances(rule, n, 3, '_finalize call sites')
   # the three finalisers are invoked only by the executor's teardown ladder
   nf = 0
   for name in ('finalize_normally', 'finalize_from_phase_outcome'):
@@ -224,8 +224,14 @@ def r2_finalize_normally(report, repo):
 
   def spec(v, p):
     fin = [c for c in p.calls(attr='_finalize')]
-    outs = [dotted(c.args[0]).split('.')[-1] if c.args and dotted(c.args[0])
-            else '?' for c in fin]
+    outs = []
+    for c in fin:
+      # the outcome handed to _finalize on this path (a constant per branch,
+      # or a local / helper result that stands for one)
+      a0 = cfgm.path_resolve(p, c.args[0], before_index=p.index_of(
+          lambda n_, _c=c: n_.contains(_c))) if c.args else None
+      d0 = dotted(a0) if a0 is not None else None
+      outs.append(d0.split('.')[-1] if d0 else '?')
     if v['aborted']:
       want = []
     elif v['no_phases']:
